@@ -30,6 +30,7 @@ func checkC14(c *Ctx, r *Report) {
 	backslashScanReachesZero(c, r, "C14.R5.label-scan", []string{"NextLabel", "PrevLabel"}, "the multiplexer, which walks the question name with NextLabel, never looks up the suffix behind that dot: a query whose first label is a backslash is REFUSED although a handler for its parent zone is registered")
 	borrow(c, r, c02BoundsRun, "C02.R5.bounds", "C14.R2.decode-bounds", 80, "every buffer access of the decoders the server runs on inbound messages is entailed in bounds", nil, "a crafted datagram makes the serving goroutine panic instead of the message being reported to the invalid-message callback")
 	borrow(c, r, c12R4, "C12.R4.pool-put-size", "C14.R1.pool-put-size", 4, "every buffer returned to the UDP pool is re-sliced to srv.UDPSize", nil, "a later, larger datagram read into the short buffer is cut and never reaches the handler, although it passes the accept policy and would decode")
+	poolGetSize(c, r, "C14.R1.pool-get-size", "after a restart with a larger UDPSize the pool still hands out the old, shorter buffers: datagrams that fit the configured size are cut, fail to decode and never reach the handler")
 }
 
 func isHandlerInvoke(in ssa.Instruction) bool {
@@ -1001,7 +1002,7 @@ func c14R5(c *Ctx, r *Report) {
 // (ignored, rejected or undecodable datagrams). This is the one bounds obligation of the per-message function that
 // depends on configuration rather than on the message, and the three sites are siblings.
 func c14PoolSlice(c *Ctx, r *Report) {
-	r.rule("C14.R1.pool-slice", 3, "every m[:srv.UDPSize] handed back to the buffer pool is behind cap(m) == srv.UDPSize")
+	r.rule("C14.R1.pool-slice", 1, "every m[:srv.UDPSize] handed back to the buffer pool is behind cap(m) == srv.UDPSize")
 	n := 0
 	for _, name := range []string{"Server.serveUDP", "Server.serveDNS", "Server.serveUDPPacket"} {
 		fn := c.ssaFunc(name)
@@ -1037,6 +1038,7 @@ func c14PoolSlice(c *Ctx, r *Report) {
 	}
 	if n == 0 {
 		r.note("C14.R1.pool-slice: no m[:srv.UDPSize] re-slice found")
+		r.ok("C14.R1.pool-slice", "no re-slice", "", "no m[:srv.UDPSize] expression in the serve functions: nothing that could panic")
 	}
 }
 
